@@ -116,11 +116,12 @@ Print Assumptions C11_monotone_complete_refuted.
 
 (* ---- non-vacuity: concrete inputs meet the hypotheses ---- *)
 
-(* three volumes, a duplicated GUID, a PEIM and a free-form file that are not candidates *)
+(* three volumes, a duplicated GUID, a PEIM and a free-form file that are not candidates
+   and whose UI names spell the GUIDs of candidates 1 and 2 *)
 Definition ex_img : image :=
-  [ [wF 0 1; wF 1 2; mkFile 2 9 fv_filetype_peim 64];
+  [ [wF 0 1; wF 1 2; mkFile 2 9 fv_filetype_peim 64 (Some 1)];
     [wF 3 1; wF 4 3];
-    [mkFile 5 8 2 40; wF 6 4; wF 7 2] ].
+    [mkFile 5 8 2 40 (Some 2); wF 6 4; wF 7 2] ].
 
 Example ex_wf : wf_image is_driver ex_img = true.
 Proof. vm_compute. reflexivity. Qed.
